@@ -215,6 +215,9 @@ class Interp:
                 return sum(o) / len(o) if is_arr(o) else o
             if name == "size" and not a:
                 return sp.Integer(len(o)) if is_arr(o) else sp.Integer(1)
+            if name in ("rows", "cols") and not a and is_arr(o) and getattr(self, "matrix_shape", None) and len(o) == self.matrix_shape[0] * self.matrix_shape[1]:
+                # a matrix-valued object modelled by its flattened coefficients (element-wise kernels only): its shape is the rule's choice
+                return sp.Integer(self.matrix_shape[0 if name == "rows" else 1])
             if name in ("max", "cwiseMax") and len(a) == 1:
                 return bcast(lambda x, y: sp.Max(x, y), o, self.ev(a[0]))
             if name in ("min", "cwiseMin") and len(a) == 1:
